@@ -564,3 +564,240 @@ Proof.
   eexists. eexists. split; [vm_compute; reflexivity|].
   split; [reflexivity|]. split; vm_compute; reflexivity.
 Qed.
+
+(* ------------------------------------------------------------------------------------------ *)
+(* first_token <= last_token for the returned model and every model nested in it *)
+Fixpoint sw (lo hi : Z) (l : list Z) : Prop :=          (* strictly increasing inside [lo, hi) *)
+  match l with
+  | [] => lo <= hi
+  | i :: r => lo <= i /\ sw (i + 1) hi r
+  end.
+
+Lemma sw_le lo hi l : sw lo hi l -> lo <= hi.
+Proof. revert lo. induction l as [|i r IH]; simpl; intros lo H; auto. destruct H as (H1 & H2). apply IH in H2. lia. Qed.
+
+Lemma sw_weaken lo lo' hi hi' l : lo' <= lo -> hi <= hi' -> sw lo hi l -> sw lo' hi' l.
+Proof.
+  revert lo lo'. induction l as [|i r IH]; simpl; intros lo lo' H1 H2 H; [lia|].
+  destruct H as (Ha & Hb). split; [lia|]. eapply IH; eauto. lia.
+Qed.
+
+Lemma sw_app lo mid hi a b : sw lo mid a -> sw mid hi b -> sw lo hi (a ++ b).
+Proof.
+  revert lo. induction a as [|i r IH]; simpl; intros lo Ha Hb.
+  - eapply sw_weaken; eauto. lia.
+  - destruct Ha as (H1 & H2). split; auto.
+Qed.
+
+Lemma sw_app_inv lo hi a b : sw lo hi (a ++ b) -> exists mid, sw lo mid a /\ sw mid hi b.
+Proof.
+  revert lo. induction a as [|i r IH]; simpl; intros lo H.
+  - exists lo. split; auto. lia.
+  - destruct H as (H1 & H2). apply IH in H2. destruct H2 as (mid & Ha & Hb). exists mid. auto.
+Qed.
+
+Lemma sw_in lo hi l z : sw lo hi l -> In z l -> lo <= z < hi.
+Proof.
+  revert lo. induction l as [|i r IH]; simpl; intros lo H I; [contradiction|].
+  destruct H as (H1 & H2). destruct I as [->|I].
+  - apply sw_le in H2. lia.
+  - apply IH with (lo := i + 1) in I; auto. lia.
+Qed.
+
+Lemma btree_ind' (Q : btree -> Prop) :
+  (forall i, Q (BTok i)) -> Q BNone ->
+  (forall p items, Forall Q items -> Q (BRep p items)) ->
+  (forall cs, Forall Q cs -> Q (BModel cs)) -> forall b, Q b.
+Proof.
+  intros HT HN HR HM. fix IH 1. intros [i| |p items|cs]; [apply HT | apply HN | apply HR | apply HM].
+  - induction items as [|c r IHr]; constructor; [apply IH | exact IHr].
+  - induction cs as [|c r IHr]; constructor; [apply IH | exact IHr].
+Qed.
+
+Lemma bfirst_bidx : forall b,
+  match bfirst b with Some a => exists r, bidx b = a :: r | None => bidx b = [] end.
+Proof.
+  apply btree_ind'; simpl; eauto.
+  intros cs F. induction F as [|c cs Hc F IH]; simpl; auto.
+  destruct (bfirst c) as [x|].
+  - destruct Hc as (r & Hr). rewrite Hr. simpl. eauto.
+  - rewrite Hc. simpl. exact IH.
+Qed.
+
+Lemma blast_in : forall b z, blast b = Some z -> In z (bidx b).
+Proof.
+  apply (btree_ind' (fun b => forall z, blast b = Some z -> In z (bidx b))); simpl.
+  - intros i z H. inversion H; subst. left. reflexivity.
+  - intros z H. discriminate.
+  - intros p items F z.
+    assert (K : forall y, (fix lastb (l : list btree) : option Z :=
+                 match l with [] => None | [x] => blast x | _ :: r => lastb r end) items = Some y ->
+               In y (flat_map bidx items)).
+    { induction F as [|c r Hc F IH]; simpl; [discriminate|]. intros y H. apply in_or_app.
+      destruct r as [|c2 r2]; [left; auto | right; auto]. }
+    destruct ((fix lastb (l : list btree) : option Z :=
+                 match l with [] => None | [x] => blast x | _ :: r => lastb r end) items) as [y|] eqn:E.
+    + intros H. inversion H; subst. right. apply K. reflexivity.
+    + intros H. inversion H. auto.
+  - intros cs F. induction F as [|c r Hc F IH]; simpl; [discriminate|]. intros z H. apply in_or_app.
+    destruct (last_some (map blast r)) as [y|] eqn:E.
+    + inversion H; subst. right. apply IH. reflexivity.
+    + left. auto.
+Qed.
+
+Lemma span_ordered lo hi b a z :
+  sw lo hi (bidx b) -> bfirst b = Some a -> blast b = Some z -> lo <= a /\ a <= z /\ z < hi.
+Proof.
+  intros S Hf Hl. pose proof (bfirst_bidx b) as Hb. rewrite Hf in Hb. destruct Hb as (r & Hr).
+  apply blast_in in Hl. rewrite Hr in *. simpl in S. destruct S as (S1 & S2).
+  destruct Hl as [->|I].
+  - apply sw_le in S2. lia.
+  - pose proof (sw_in _ _ _ _ S2 I). lia.
+Qed.
+
+Lemma sw_flat_in lo hi (cs : list btree) x :
+  sw lo hi (flat_map bidx cs) -> In x cs -> exists lo' hi', lo <= lo' /\ hi' <= hi /\ sw lo' hi' (bidx x).
+Proof.
+  revert lo. induction cs as [|c cs IH]; simpl; intros lo S I; [contradiction|].
+  apply sw_app_inv in S. destruct S as (mid & Sa & Sb).
+  destruct I as [->|I].
+  - exists lo, mid. repeat split; auto; try lia. apply sw_le in Sb. lia.
+  - destruct (IH _ Sb I) as (lo' & hi' & H1 & H2 & H3). exists lo', hi'. repeat split; auto.
+    apply sw_le in Sa. lia.
+Qed.
+
+Lemma sw_subnode c b : subnode c b -> forall lo hi, sw lo hi (bidx b) ->
+  exists lo' hi', lo <= lo' /\ hi' <= hi /\ sw lo' hi' (bidx c).
+Proof.
+  induction 1 as [|p items x I S IH|cs x I S IH]; intros lo hi H.
+  - exists lo, hi. repeat split; auto; lia.
+  - simpl in H. destruct H as (H1 & H2).
+    destruct (sw_flat_in _ _ _ _ H2 I) as (l1 & h1 & A & B & C).
+    destruct (IH _ _ C) as (l2 & h2 & A2 & B2 & C2). exists l2, h2. repeat split; auto; lia.
+  - simpl in H. destruct (sw_flat_in _ _ _ _ H I) as (l1 & h1 & A & B & C).
+    destruct (IH _ _ C) as (l2 & h2 & A2 & B2 & C2). exists l2, h2. repeat split; auto; lia.
+Qed.
+
+Section BuilderSpans.
+  Variable env : benv.
+
+  Definition L (st : bstate) : Z := zlen (built st).
+  Definition Out (st st' : bstate) (b : btree) : Prop := sw (L st) (L st') (bidx b).
+  Definition OutL (st st' : bstate) (xs : list btree) : Prop := sw (L st) (L st') (flat_map bidx xs).
+  Definition P2 (rec : ltree -> M btree) (t : ltree) : Prop :=
+    forall st st' b, rec t st = (st', Ok b) -> Out st st' b.
+  Definition R2 (rec : ltree -> M btree) (t : ltree) : Prop :=
+    P2 rec t /\ match t with LNode _ cs => Forall (P2 rec) cs | _ => True end.
+
+  Lemma fix_gap_grows c st st1 u : fix_gap env c st = (st1, Ok u) -> L st <= L st1.
+  Proof.
+    intros H. apply fix_gap_spec in H. destruct H as (_ & _ & B). unfold L. rewrite B, zlen_app.
+    unfold zlen. lia.
+  Qed.
+
+  Lemma build_token_out pos st st' b : build_token env pos st = (st', Ok b) -> Out st st' b.
+  Proof.
+    unfold build_token. destruct (pos <? 0); [discriminate|].
+    intros H. apply bind_ok in H. destruct H as (u & st1 & G & H).
+    destruct (nth_error (toks env) (Z.to_nat pos)) as [t|]; [|discriminate].
+    destruct (zmem (lty t) (tmodels env)); [|discriminate].
+    inversion H; subst; clear H. apply fix_gap_grows in G.
+    unfold Out, L in *. simpl. rewrite zlen_app. replace (zlen [t]) with 1 by reflexivity. lia.
+  Qed.
+
+  Lemma build_indent_out st st' b : build_indent env st = (st', Ok b) -> Out st st' b.
+  Proof.
+    unfold build_indent.
+    destruct (scan_indent (ignored env) (zskipn (cur st) (toks env)) (cur st)) as [c|]; [|discriminate].
+    intros H. apply bind_ok in H. destruct H as (u & st1 & G & H).
+    apply fix_gap_grows in G. apply build_token_out in H. unfold Out in *.
+    eapply sw_weaken; [exact G | | exact H]. lia.
+  Qed.
+
+  Lemma items_out rec ics :
+    Forall (P2 rec) ics -> forall st st' xs,
+    (fix items (l : list ltree) : M (list btree) :=
+       match l with
+       | [] => ret []
+       | LNode NSkip _ :: r => items r
+       | i :: r => bind (rec i) (fun x => bind (items r) (fun xs => ret (x :: xs)))
+       end) ics st = (st', Ok xs) -> OutL st st' xs.
+  Proof.
+    induction 1 as [|i ics Pi F IH]; intros st st' xs H.
+    - inversion H; subst. unfold OutL. simpl. lia.
+    - assert (K : bind (rec i) (fun x => bind ((fix items (l : list ltree) : M (list btree) :=
+                     match l with
+                     | [] => ret []
+                     | LNode NSkip _ :: r => items r
+                     | i :: r => bind (rec i) (fun x => bind (items r) (fun xs => ret (x :: xs)))
+                     end) ics) (fun xs => ret (x :: xs))) st = (st', Ok xs) -> OutL st st' xs).
+      { intros H0. apply bind_ok in H0. destruct H0 as (x & s1 & H1 & H0).
+        apply bind_ok in H0. destruct H0 as (zs & s2 & H2 & H0). inversion H0; subst; clear H0.
+        unfold OutL. simpl. eapply sw_app; [eapply Pi; eauto | eapply IH; eauto]. }
+      destruct i as [pos| |k cs]; [apply K; exact H | apply K; exact H |].
+      destruct k; try (apply K; exact H). eapply IH; eauto.
+  Qed.
+
+  Lemma build_repeated_out rec ics :
+    Forall (P2 rec) ics -> forall st st' b, build_repeated rec ics st = (st', Ok b) -> Out st st' b.
+  Proof.
+    intros F st st' b H. unfold build_repeated in H.
+    apply bind_ok in H. destruct H as (ph & st1 & Hp & H).
+    apply bind_ok in H. destruct H as (xs & st2 & Hi & H). inversion H; subst; clear H.
+    apply (items_out rec ics F) in Hi. unfold build_placeholder in Hp. inversion Hp; subst; clear Hp.
+    unfold Out, OutL, L in *. simpl in *. rewrite zlen_app in Hi. unfold zlen at 2 in Hi. simpl in Hi.
+    split; [lia|]. exact Hi.
+  Qed.
+
+  Lemma build_children_out rec cs :
+    Forall (R2 rec) cs -> forall st st' xs, build_children env rec cs st = (st', Ok xs) -> OutL st st' xs.
+  Proof.
+    induction 1 as [|c cs Rc F IH]; intros st st' xs H; simpl in H.
+    - inversion H; subst. unfold OutL. simpl. lia.
+    - assert (K : forall (m : M btree),
+                 (forall s s' x, m s = (s', Ok x) -> Out s s' x) ->
+                 bind m (fun x => bind (build_children env rec cs) (fun xs => ret (x :: xs))) st
+                   = (st', Ok xs) -> OutL st st' xs).
+      { intros m Hm H0. apply bind_ok in H0. destruct H0 as (x & s1 & H1 & H0).
+        apply bind_ok in H0. destruct H0 as (zs & s2 & H2 & H0). inversion H0; subst; clear H0.
+        unfold OutL. simpl. eapply sw_app; [eapply Hm; eauto | eapply IH; eauto]. }
+      destruct Rc as (Pc & Gc).
+      destruct c as [pos| |k ics].
+      + apply (K (rec (LTok pos))); [exact Pc | exact H].
+      + apply bind_ok in H. destruct H as (zs & s2 & H2 & H). inversion H; subst. simpl.
+        unfold OutL. simpl. eapply IH; eauto.
+      + destruct k.
+        * apply (K (rec (LNode NModel ics))); [exact Pc | exact H].
+        * apply (K (build_repeated rec ics)); [|exact H]. intros. eapply build_repeated_out; eauto.
+        * apply (K (build_indent env)); [|exact H]. intros. eapply build_indent_out; eauto.
+        * eapply IH; eauto.
+        * apply (K (rec (LNode NUnknown ics))); [exact Pc | exact H].
+  Qed.
+
+  Lemma build_required_R2 : forall t, R2 (build_required env) t.
+  Proof.
+    apply ltree_ind'.
+    - intros pos. split; auto. intros st st' b H. simpl in H. eapply build_token_out; eauto.
+    - split; auto. intros st st' b H. discriminate.
+    - intros k cs F. split.
+      + intros st st' b H. destruct k; simpl in H; try discriminate.
+        apply bind_ok in H. destruct H as (xs & st1 & H1 & H). inversion H; subst; clear H.
+        unfold Out. simpl. eapply build_children_out; eauto.
+      + eapply Forall_impl; [|exact F]. intros a (Pa & _). exact Pa.
+  Qed.
+
+  (* every model nested in the result has first_token <= last_token, both inside the store *)
+  Lemma spans_ordered t st b :
+    build env t = (st, Ok b) ->
+    forall c a z, subnode c b -> bfirst c = Some a -> blast c = Some z ->
+                  0 <= a /\ a <= z /\ z < zlen (built st).
+  Proof.
+    unfold build. destruct t as [| |k cs]; try discriminate.
+    intros H c a z Hs Hf Hl. apply bind_ok in H. destruct H as (m & st1 & H1 & H).
+    apply bind_ok in H. destruct H as (u & st2 & H2 & H). inversion H; subst; clear H.
+    pose proof (proj1 (build_required_R2 (LNode k cs)) _ _ _ H1) as O.
+    apply fix_gap_grows in H2. unfold Out, L in *. simpl in O.
+    destruct (sw_subnode _ _ Hs _ _ O) as (lo & hi & A & B & C).
+    pose proof (span_ordered _ _ _ _ _ C Hf Hl). change (zlen (@nil lexeme)) with 0 in A. lia.
+  Qed.
+End BuilderSpans.
